@@ -158,7 +158,7 @@ func c16positioned(c *core.Ctx) {
 				c.Bad(R, key, pos, what, "end-of-input position without the non-empty-stack guard: for an empty text dataSize-1 wraps around")
 			}
 		default:
-			if r, ok := tableGet(posTable, key); ok {
+			if r, ok := tableGetMoved(c, posTable, key); ok {
 				c.Tabled(R, key, pos, what, r)
 			} else {
 				c.Bad(R, key, pos, what, "the index expression is neither `s.index - 1` in a scanner, `s.dataSize - 1` at end of input, nor a tabled form: the diagnostic may point outside the text (line and column 0, empty quoted line) or at the wrong byte")
